@@ -4,6 +4,7 @@ import numpy as np
 from .read import SgzReader
 from .utils import pad, int_to_bytes, np_float_to_bytes, np_float_to_bytes_signed, coord_to_index
 from .sgzconstants import DISK_BLOCK_BYTES, SEGY_TEXT_HEADER_BYTES
+from .version import SeismicZfpVersion
 
 
 class SgzCropper(SgzReader):
@@ -28,6 +29,16 @@ class SgzCropper(SgzReader):
             zslices_index_range = (0, len(self.zslices))
 
         err_string = "{} bounds out of range. Expected range within [{},{}], but got ({},{})."
+
+        if not (self.blockshape[0] == 4 and self.blockshape[1] == 4):
+            # Compressed data is copied assuming units are stored in plain IL-XL-Z order
+            print("Error: Cropping is only supported for files with 4x4xN blockshape, no file will be written.")
+            valid_bounds = False
+
+        for index_range in [iline_index_range, xline_index_range, zslices_index_range]:
+            if index_range[0] >= index_range[1]:
+                print("Error: Empty or inverted cropping range ({},{}), no file will be written.".format(*index_range))
+                valid_bounds = False
 
         if iline_index_range[0] < 0 or iline_index_range[1] > len(self.ilines):
             print(err_string.format("Inline", 0, len(self.ilines), *iline_index_range))
@@ -77,10 +88,12 @@ class SgzCropper(SgzReader):
         header[8:12] = int_to_bytes(len_xlines)
         header[12:16] = int_to_bytes(len_ilines)
         header[16:20] = np_float_to_bytes_signed(np.int32(self.zslices[zslices_index_range[0]]))
-        header[20:24] = np_float_to_bytes(np.int32(self.xlines[xline_index_range[0]]))
-        header[24:28] = np_float_to_bytes(np.int32(self.ilines[iline_index_range[0]]))
+        header[20:24] = np_float_to_bytes_signed(np.int32(self.xlines[xline_index_range[0]]))
+        header[24:28] = np_float_to_bytes_signed(np.int32(self.ilines[iline_index_range[0]]))
         header[56:60] = int_to_bytes(compressed_data_length_diskblocks)
         header[60:64] = int_to_bytes((len_xlines * len_ilines * 32) // 8)
+        if self.file_version > SeismicZfpVersion("0.2.1"):
+            header[68:72] = int_to_bytes(len_xlines * len_ilines)
 
         # We need to inform the SEG-Y binary header what has happened to the trace length, otherwise
         # segyio will get all confused if attempting to read the cropped SGZ converted back to SEG-Y
@@ -161,8 +174,8 @@ class SgzCropper(SgzReader):
                                                                                                   zslices_index_range)
 
         z_units = (pad(zslices_index_range[1], self.blockshape[2]) - zslices_index_range[0]) // 4
-        xl_units = (xline_index_range[1] - xline_index_range[0]) // 4
-        il_units = (iline_index_range[1] - iline_index_range[0]) // 4
+        xl_units = (xline_index_range[1] - xline_index_range[0] + 3) // 4
+        il_units = (iline_index_range[1] - iline_index_range[0] + 3) // 4
 
         header = self.regenerate_header(iline_index_range, xline_index_range, zslices_index_range)
         compressed_bytes = self.loader.read_chunk_range(iline_index_range[0],
@@ -178,4 +191,8 @@ class SgzCropper(SgzReader):
                 header_array = self.variant_headers[k].reshape((self.n_ilines, self.n_xlines)).astype(np.int32)
                 cropped_header_array = header_array[iline_index_range[0]:iline_index_range[1],
                                                     xline_index_range[0]:xline_index_range[1]]
-                new_sgz_file.write(cropped_header_array.flatten().tobytes())
+                header_bytes = cropped_header_array.flatten().tobytes()
+                if self.file_version > SeismicZfpVersion("0.2.1"):
+                    # Readers of these file versions expect each array padded to 512 bytes
+                    header_bytes += bytes(-len(header_bytes) % 512)
+                new_sgz_file.write(header_bytes)
